@@ -22,6 +22,7 @@ from .lib import calls_in, own_nodes, stmt_of
 from .model import AnalysisError, ClassInfo, FuncInfo, Model, dotted
 from .terms import FuncAnalysis, Term, TermCtx, show, strip_sites
 
+VIEW_FUNCS = {"ast.walk", "ast.iter_child_nodes", "builtins.list", "builtins.tuple", "builtins.sorted", "builtins.reversed", "builtins.iter", "builtins.enumerate", "builtins.zip", "builtins.filter"}
 LIST_MUTATORS = {"append", "extend", "insert", "remove", "pop", "clear", "sort", "reverse", "update", "setdefault", "popitem", "add", "discard", "__setitem__", "__delitem__"}
 MAX_PATH = 7
 
@@ -61,7 +62,18 @@ def locations(t: Term, top: bool = True) -> List[Tuple[Term, Optional[str], bool
         if callee == ("global", "copy.copy") and len(t[2]) == 1:
             # the copy itself is fresh; what is reached through it is shared with the original
             return [] if top else locations(t[2][0], top=False)
-        if callee[0] == "global" and callee[1] in ("copy.deepcopy", "builtins.list", "builtins.dict", "builtins.set", "builtins.tuple", "builtins.sorted", "ast.parse", "builtins.bytearray"):
+        if callee[0] == "global" and callee[1] in VIEW_FUNCS:
+            # a new container (or iterator) whose *elements* are the argument's elements / descendants
+            if top:
+                return []
+            out = []
+            for a in t[2]:
+                for x in locations(a, top=False):
+                    y = deepen(x)
+                    if y not in out:
+                        out.append(y)
+            return out
+        if callee[0] == "global" and callee[1] in ("copy.deepcopy", "builtins.dict", "builtins.set", "ast.parse", "builtins.bytearray"):
             return []
         if callee[0] == "global" and (callee[1].startswith("ast.") or callee[1].startswith("builtins.")):
             return []
@@ -240,7 +252,10 @@ class Effects:
                 if isinstance(f, ast.Name) and f.id in ("setattr", "delattr") and n.args:
                     add(n.args[0], f"{f.id}()", stmt_of(n))
                 elif isinstance(f, ast.Attribute) and f.attr in LIST_MUTATORS:
-                    add(f.value, f".{f.attr}()", stmt_of(n))
+                    if isinstance(f.value, ast.Attribute) and f.value.attr == "__dict__":
+                        add(f.value.value, f"attribute change through __dict__.{f.attr}()", stmt_of(n))
+                    else:
+                        add(f.value, f".{f.attr}()", stmt_of(n))
                 # in-place generic_visit of the stdlib transformer
                 if cls is not None and self.model.is_transformer(cls) and isinstance(f, ast.Attribute) and f.attr == "generic_visit" and n.args:
                     is_self = isinstance(f.value, ast.Name) and fi.pos_params and f.value.id == fi.pos_params[0]
